@@ -615,6 +615,42 @@ def rule_r6(ctx) -> List[R.Inst]:
                                 "slot = num * (slots of the line) / den", construct=unparse(sc[0][0])))
     else:
         insts.append(R.undec(rid, "slot:rescale", file, fn.node.lineno, "rescaling of the slot numerator not recognised"))
+    # the slots of a line: find_lcm over ALL denominators of the (measure, channel) group
+    fl = [n for n in ast.walk(fn.node) if isinstance(n, ast.Call) and call_name(n) == "find_lcm" and n.args]
+    if len(fl) != 1:
+        insts.append(R.undec(rid, "slot:line-denominator", file, fn.node.lineno, f"{len(fl)} find_lcm calls found"))
+    else:
+        a0 = fl[0].args[0]
+        if isinstance(a0, ast.Name):
+            ds_ = [x.value for x in ast.walk(fn.node) if isinstance(x, ast.Assign) and len(x.targets) == 1 and isinstance(x.targets[0], ast.Name) and x.targets[0].id == a0.id]
+            a0 = ds_[0] if len(ds_) == 1 else a0
+        core = _strip_repr(a0)
+        whole = None
+        if isinstance(core, ast.Subscript) and isinstance(core.slice, ast.Slice):
+            whole = False
+        elif isinstance(core, ast.Subscript) and C.const_str(core.slice) == "den" and isinstance(core.value, ast.Name):
+            # the group variable of `for (measure, channel), G in <frame>.groupby([...])`
+            g = core.value.id
+            lp = next((l for l in ast.walk(fn.node) if isinstance(l, ast.For) and isinstance(l.target, ast.Tuple) and len(l.target.elts) == 2 and
+                       isinstance(l.target.elts[1], ast.Name) and l.target.elts[1].id == g and any(x is fl[0] for x in ast.walk(l))), None)
+            keys = unparse(lp.iter) if lp is not None else ""
+            whole = lp is not None and "groupby" in keys and "measure" in keys and "channel" in keys
+        elif isinstance(core, ast.Name):
+            # the parameter of the lambda handed to <frame>.groupby([measure, channel])["den"].transform(lambda den: find_lcm(den.tolist(), K))
+            lam = next((l for l in ast.walk(fn.node) if isinstance(l, ast.Lambda) and any(x is fl[0] for x in ast.walk(l)) and
+                        len(l.args.args) == 1 and l.args.args[0].arg == core.id), None)
+            tr = next((c for c in ast.walk(fn.node) if isinstance(c, ast.Call) and call_name(c) in ("transform", "apply") and c.args and c.args[0] is lam), None) if lam else None
+            src = unparse(tr.func.value).replace('"', "'") if tr is not None else ""
+            whole = tr is not None and "groupby" in src and "measure" in src and "channel" in src and src.endswith("['den']")
+        if whole:
+            insts.append(R.ok(rid, "slot:line-denominator", file, fl[0].lineno, idiom="find_lcm over all denominators of the (measure, channel) group"))
+        elif whole is False:
+            insts.append(R.viol(rid, "slot:line-denominator", file, fl[0].lineno,
+                                f"the line's slot count is computed from a PART of its denominators ('{unparse(fl[0].args[0])[:60]}'): one result per "
+                                f"object is needed — a lane with more objects in a measure than the slice keeps cannot be written",
+                                construct=f"find_lcm({unparse(fl[0].args[0])[:60]}, …)"))
+        else:
+            insts.append(R.undec(rid, "slot:line-denominator", file, fl[0].lineno, f"argument of find_lcm not recognised: {unparse(fl[0].args[0])[:80]}"))
     # the store into the line uses the rescaled numerator as index and the object's value
     # (the payload list: the one initialised as [b"00"] * slots)
     seqn = {n.targets[0].id for n in ast.walk(fn.node) if isinstance(n, ast.Assign) and isinstance(n.targets[0], ast.Name) and
